@@ -857,7 +857,11 @@ class UpdateStats:
 class Checkpoint:
     @staticmethod
     def gen(rng, shape):
-        return {'op': 'checkpoint', 'key': 'c%d' % rng.randint(0, 10 ** 6)}
+        spec = {'op': 'checkpoint', 'key': 'c%d' % rng.randint(0, 10 ** 6)}
+        if rng.random() < 0.4:
+            # `resources` is part of checkpoint's signature (documented, without effect): passing it must not matter
+            spec['resources'] = rng.choice([shape[0]['name'], [shape[-1]['name']], 0])
+        return spec
 
     @staticmethod
     def shape(spec, shape):
@@ -865,6 +869,9 @@ class Checkpoint:
 
     @staticmethod
     def build(spec, env):
+        if 'resources' in spec:
+            return lab.df().checkpoint(spec['key'], checkpoint_path='cp_%s' % env.tag,
+                                       resources=copy.deepcopy(spec['resources']))
         return lab.df().checkpoint(spec['key'], checkpoint_path='cp_%s' % env.tag)
 
 
